@@ -101,6 +101,20 @@ Definition obs_ok (lo hi : N) (vs : list N) : bool :=
    the client has received the first `cut` bytes when the connection ends *)
 Definition client_ok (hdr gz cut : N) : bool := hdr + gz <=? cut.
 
+(* ---- the producer side: Store.Backup hands the stream to its destination in a sequence of writes — the copy
+   loop's chunks, then whatever gzip.Writer.Close flushes (buffered tail, trailer).  A destination with room
+   for `room` bytes accepts a write iff it fits.  The backup reports success iff every write succeeded,
+   those of Close included. *)
+Fixpoint write_all (writes : list N) (room : N) : bool :=
+  match writes with
+  | [] => true
+  | n :: r => if n <=? room then write_all r (room - n) else false
+  end.
+Definition backup_result (copy_writes close_writes : list N) (room : N) : bool :=
+  write_all (copy_writes ++ close_writes) room.
+(* what the tie evaluates: the stream is `total` bytes long *)
+Definition producer_ok (total room : N) : bool := total <=? room.
+
 Inductive hstatus := H200 | H500 | HAborted.
 (* handleBackup: the status can only be chosen while nothing has been written *)
 Definition http_status (ok : bool) (written : N) : hstatus :=
@@ -118,7 +132,10 @@ Inductive scn :=
 | Live (lo hi : N) (o : lobs)
 | Blocked (wal_empty : bool) (lo hi : N) (stalled owner_is_backup snapshot_refused : bool) (o : lobs)
     (* the consumer stalled mid-copy; meanwhile one transaction committed and a snapshot was requested *)
-| Cut (total : N) (full_ok : bool) (cut : N) (cut_ok : bool) (written full_len status : N).
+| Cut (total : N) (full_ok : bool) (cut : N) (cut_ok : bool) (written full_len status : N)
+| DstFail (handler : bool) (total limit status delivered : N) (loads : bool).
+    (* the destination writer accepts `limit` bytes, then fails; status: 200 = reported as a success (Store.Backup: nil),
+       0 = response aborted, else an error *)
 
 Record case := { c_fmt : fmt; c_vacuum : bool; c_compress : bool; c_remote : bool; c_scn : scn }.
 
@@ -154,6 +171,12 @@ Definition check_case (c : case) : bool :=
            | _ => false
            end
       else match o with OErr => true | _ => false end
+  | DstFail handler total limit status delivered loads =>
+      let ok := producer_ok total limit in
+      valid_request c
+      && (if ok then (delivered =? total) && loads else delivered <=? limit)
+      && (if handler then status =? hstatus_code (http_status ok delivered)
+          else status =? (if ok then 200 else 500))
   | Cut total full_ok cut cut_ok written full_len status =>
       let ok := client_ok hdr_len (total - hdr_len) cut in
       full_ok && (hdr_len <=? total)
